@@ -20,7 +20,7 @@ MANIFEST = dict(
     note="Modelled, not verified: Python's binary-operator dispatch (NotImplemented fallback to __radd__, += falling back to +), UserString.",
     technique="Lean 4 proof (mutual structural induction over trees; induction over expressions) + differential correspondence",
 )
-PROP_FILES = ["HtmlVerif/Props/C04.lean", "HtmlVerif/Props/SrcEscape.lean", "HtmlVerif/Props/SrcC08b.lean"]
+PROP_FILES = ["HtmlVerif/Props/C04.lean", "HtmlVerif/Props/SrcEscape.lean", "HtmlVerif/Props/SrcC08b.lean", "HtmlVerif/Props/SrcRender.lean"]
 
 
 def exprs(leaves, n):
